@@ -4,4 +4,6 @@ CONSTANTS
   MaxLines = 3
   MaxRecs = 1
 PROPERTY Termination
+PROPERTY RefinesCursor
+INVARIANT CursorInv
 CHECK_DEADLOCK FALSE
